@@ -157,10 +157,13 @@ SgrFrom(pen, ps, i) ==
   ELSE IF n \in 100..107 THEN SgrFrom([pen EXCEPT !.bg = n - 100 + 8], ps, i + 1)
   ELSE IF n = 39 THEN SgrFrom([pen EXCEPT !.fg = -1], ps, i + 1)
   ELSE IF n = 49 THEN SgrFrom([pen EXCEPT !.bg = -1], ps, i + 1)
+  \* an extended colour selector consumes its parameters; one that names no colour (index or component above 255) selects nothing
   ELSE IF n \in {38, 48} /\ i + 2 <= Len(ps) /\ ps[i + 1] = 5
-       THEN SgrFrom(IF n = 38 THEN [pen EXCEPT !.fg = 1000 + ps[i + 2]] ELSE [pen EXCEPT !.bg = 1000 + ps[i + 2]], ps, i + 3)
+       THEN SgrFrom(IF ps[i + 2] > 255 THEN pen
+                    ELSE IF n = 38 THEN [pen EXCEPT !.fg = 1000 + ps[i + 2]] ELSE [pen EXCEPT !.bg = 1000 + ps[i + 2]], ps, i + 3)
   ELSE IF n \in {38, 48} /\ i + 4 <= Len(ps) /\ ps[i + 1] = 2
-       THEN SgrFrom(IF n = 38 THEN [pen EXCEPT !.fg = TrueColour(ps[i + 2], ps[i + 3], ps[i + 4])]
+       THEN SgrFrom(IF ps[i + 2] > 255 \/ ps[i + 3] > 255 \/ ps[i + 4] > 255 THEN pen
+                    ELSE IF n = 38 THEN [pen EXCEPT !.fg = TrueColour(ps[i + 2], ps[i + 3], ps[i + 4])]
                               ELSE [pen EXCEPT !.bg = TrueColour(ps[i + 2], ps[i + 3], ps[i + 4])], ps, i + 5)
   ELSE SgrFrom(pen, ps, i + 1)
 SGR(t, ps) == [t EXCEPT !.pen = SgrFrom(t.pen, IF ps = <<>> THEN <<0>> ELSE ps, 1)]
